@@ -27,8 +27,8 @@ META = {
 DATA: t.List[t.Tuple[str, str]] = [      # (kind, expression)
     ('none', 'None'), ('bool', 'True'), ('bool', 'False'),
     ('int', '0'), ('int', '1'), ('int', '7'), ('int', '-3'), ('int', '10**20'),
-    ('float', '1.5'), ('float', '2.0'), ('float', '0.0'), ('float', 'inf'), ('float', 'nan'),
-    ('complex', 'complex(1, 2)'), ('complex', 'complex(2, 0)'),
+    ('float', '1.5'), ('float', '2.0'), ('float', '0.0'), ('float', 'inf'), ('float', 'nan'), ('float', '1.0'),
+    ('complex', 'complex(1, 2)'), ('complex', 'complex(2, 0)'), ('complex', 'complex(1, 0)'),
     ('str', "'abc'"), ('str', "'12'"), ('str', "'1.5'"), ('str', "'true'"), ('str', "'2023-09-05'"), ('str', "''"),
     ('str', "'ab'"), ('str', "SubStr('xy')"), ('str', "'a'"),
     ('bytes', "b'ab'"), ('bytes', "b'12'"), ('bytes', "bytearray(b'ab')"), ('bytes', "b''"),
@@ -68,8 +68,7 @@ def verdict(vkind, v, ast, accepted):
         return 'unspec'            # Python bool is an int
     if ast == 'bool' and vkind == 'int' and v in (0, 1):
         return 'unspec'
-    if ast == 'lit_mixed' and vkind in ('bool', 'float'):
-        return 'unspec'            # 1 == True == 1.0
+    # (Literal[1, 'a', None]: the int 1 - a float or bool that merely equals it is forbidden like for any int target)
     if ast in ('enum_int',) and vkind in ('bool', 'float', 'complex'):
         # an int-valued enum converts through int: a float or complex is never an int (firm); a bool is an int (UNSPEC)
         return 'unspec' if vkind == 'bool' else 'forbidden'
@@ -302,7 +301,7 @@ def run_shard(shard, tier):
                                        f"cell d={di} t={ti} ctx={p} mode={mode} raised {type(e).__name__}: {core.sstr(e)}",
                                        {'d': di, 't': ti, 'ctx': list(p), 'mode': mode}, 5)
     if di == 0:
-        res['samples'].append({'datum': DATA[16][1], 'target': 'int', 'context': 'dict_value',
+        res['samples'].append({'datum': "'12'", 'target': 'int', 'context': 'dict_value',
                                'cell': "from_data({'k': '12'}, Dict[str, int]) must raise ConvertError"})
     return res
 
